@@ -57,7 +57,7 @@ func (c Categorical) CDF(x float64) float64 {
 		}
 		cdf += w
 	}
-	return cdf / c.heap[0]
+	return math.Min(1, cdf/c.heap[0])
 }
 
 // Entropy returns the entropy of the distribution.
